@@ -27,13 +27,17 @@ def spec(tier, seed):
     for (w, h) in sorted(ysizes):
         gen_y += gy.instance("c13", w, h)
         jobs.append(Job("yuv", gy.name("c13", w, h), 1200, params={"w": w, "h": h}, group="rgba", weight=w * h, allow_uncovered=gy.uncovered(w, h)))
+    from vf import core_scenarios as cs
+    cgen, cjobs = cs.jobs_for(tier, seed, quick_n=6)
+    jobs += [j for j in cjobs if not j.is_kf_twin]
+    CORE_GEN = cgen
     return {
         "jobs": jobs,
-        "generated": {"deblock/src/deblock.rs": gen_d, "yuv/src/bt601.rs": gen_y},
+        "generated": {"deblock/src/deblock.rs": gen_d, "yuv/src/bt601.rs": gen_y, "h263/src/decoder/state.rs": CORE_GEN},
         "functions": ["h263-rs::decoder::picture::DecodedPicture::{new, as_yuv, as_luma, as_chroma_b, as_chroma_r, chroma_samples_per_row, luma_samples_per_row, format}"] + c09.FUNCS + c08.FUNCS,
         "stubs": c09.STUBS + ["yuv_to_rgba_4x -> transparent kernel (C07 covers the arithmetic)"],
         "rule": "plane sizing: width and height both symbolic over all u16 pairs with w*h <= 2^22 in one query; then for enumerated picture sizes the luma plane (w x h) and the chroma plane (ceil(w/2) x ceil(h/2)) go through deblock() with strength QUANT_TO_STRENGTH[q], q symbolic 1..31, and the three planes through yuv420_to_rgba: no panic, output lengths w*h resp. 4*w*h; content symbolic",
         "bounds": ["picture sizes for the post-processing stages: " + ", ".join("%dx%d" % s for s in sorted(set(pics)))],
         "outside": ["post-processing at sizes not enumerated", "the three stages are composed through the proved size relations, not in one query (the crates do not depend on each other)"],
-        "assumptions": ["decoded planes are never resized after DecodedPicture::new (shown by the decoder-core harnesses of C01)"],
+        "assumptions": ["decoder-core step scenarios (tagged [C13] assertions): every successfully decoded and stored picture has planes of exactly the sizes DecodedPicture::new gives"],
     }
